@@ -9,6 +9,7 @@
 
 mod archive;
 mod extract;
+mod mover;
 mod plan;
 
 use vh_engine::{Check, Section};
@@ -21,7 +22,7 @@ fn main() {
         "extract: file (len, content_seed) <= 1 MiB, span set from sorted cut points (kept/dropped intervals, extra zero-length spans, \
          optional overlap perturbation, input order sorted/reversed/shuffled), budget from {0,128Ki,1Mi,4Mi,1,128Ki+1,300001}; \
          non-trivial = >= 2 positive-length spans and dead bytes in front of at least one of them (a gap). \
-         merge-plan: <= 12 segments (state, write_position <= segment_size), threshold in permille, segment_size 4..=1 GiB; \
+         merge-plan: <= 12 segments (state, write_position <= segment_size), threshold in permille, segment_size 4..=64 GiB; \
          non-trivial = the plan has >= 1 move. Distinct by case hash."
             .into(),
     );
@@ -43,6 +44,13 @@ fn main() {
     ck.run(
         Section::enumerate("merge-plan-small", plan::SMALL_SCOPE, plan::small_scope, move |c: &plan::PlanCase| plan::check(c, &k2)).shards(16),
     );
+
+    // the two copy routines of the mover, lengths aimed at the chunk boundaries
+    ck.run(Section::pbt("mover", tier.pick(20_000, 400_000), mover::strategy, mover::check).shards(16).shrink_iters(300));
+    let infra: Vec<String> = std::mem::take(&mut *mover::INFRA.lock().unwrap());
+    for m in infra {
+        ck.infra(format!("mover: {m}"));
+    }
 
     ck.run(Section::pbt("archive-compact", tier.pick(600, 30_000), archive::strategy, archive::check).shards(16).shrink_iters(200));
 
